@@ -6,7 +6,7 @@
 (*   out/b_3.json  part (c): per version the grammar of the code (all deviations on), the structures of  *)
 (*                 every section, whole-transaction structures for the token-stream binding              *)
 EXTENDS TxAuth, Json
-CaseSeq == SetToSeq(Cases)
+CaseSeq == SetToSeq(CaseIds)
 MutSeq == SetToSeq(UNION {{[op |-> "mut", t |-> t, m |-> m] : m \in MutsFor(t)} : t \in RichBases})
 (* sections with many patterns are enumerated with one item only *)
 NItems(sec) == IF Cardinality(ItemPats(sec)) > 8 THEN 1 ELSE 2
@@ -22,7 +22,7 @@ BaseEmpty(v) == [n \in Names(v) |-> IF SecByName(KA, v, n).list THEN <<>> ELSE <
 Wholes(v) == UNION {UNION {{[b EXCEPT ![s.name] = st] : st \in SecStructs(s, 1)} : s \in Rng(Gram(KA, v))} : b \in {BaseFull(v), BaseEmpty(v)}}
 GramDump(v) == [v |-> v, secs |-> [i \in DOMAIN Gram(KA, v) |-> SecDump(v, Gram(KA, v)[i])], wholes |-> SetToSeq(Wholes(v))]
 DumpAll == /\ JsonSerialize("out/b_0.json", <<[op |-> "schema", fields |-> FieldTable]>>)
-           /\ JsonSerialize("out/b_1.json", [i \in DOMAIN CaseSeq |-> [op |-> "case", t |-> CaseSeq[i], hon |-> Honest(CaseSeq[i])]])
+           /\ JsonSerialize("out/b_1.json", [i \in DOMAIN CaseSeq |-> LET t == CaseOf(CaseSeq[i]) IN [op |-> "case", t |-> t, hon |-> Honest(t)]])
            /\ JsonSerialize("out/b_2.json", MutSeq)
            /\ JsonSerialize("out/b_3.json", <<GramDump(1), GramDump(2), GramDump(3)>>)
 GNext == phase = "init" /\ DumpAll /\ phase' = "dumped" /\ UNCHANGED <<tx, orig, mut, verdict, hist>>
